@@ -191,10 +191,7 @@ func (c *callee) HandleMessage(from gen.PID, message any) error {
 	case cmdRespond:
 		respond(c, m)
 	case cmdSetup:
-		a, err := c.CreateAlias() // not allowed during Init
-		if err != nil {
-			panic(err)
-		}
+		a, _ := c.CreateAlias() // not allowed during Init; on failure the zero alias (calls via it fail at once)
 		c.alias = a
 		c.ready <- [2]gen.Alias{a, c.meta}
 	}
@@ -313,12 +310,17 @@ func runCase(node gen.Node, caseNo int, c Case) *Result {
 		name := gen.Atom(fmt.Sprintf("callee_%d_%d", caseNo, i))
 		pid, err := node.SpawnRegister(name, func() gen.ProcessBehavior { return &callee{} }, gen.ProcessOptions{}, i, seen, ready)
 		if err != nil {
-			panic(err)
+			return stall("setup: spawn callee: %v", err)
 		}
 		if err := node.Send(pid, cmdSetup{}); err != nil {
-			panic(err)
+			return stall("setup: callee unreachable: %v", err)
 		}
-		al := <-ready
+		var al [2]gen.Alias
+		select {
+		case al = <-ready:
+		case <-time.After(stallLimit):
+			return stall("setup: callee did not answer")
+		}
 		callees[i] = calleeInfo{pid, name, al[0], al[1]}
 	}
 	helpers := make([]gen.PID, 2)
